@@ -53,6 +53,8 @@ def e1_known_sig(sc, v):
     if v["oracle"] in ("update-raises", "update-raises-other", "run-raises", "req-mismatch",
                        "extrapolating-get", "req-unmet", "illegal-update", "model-series-differs",
                        "order-series-differs", "order-outcome-differs") and comp and \
-            shared_pull_upstream(sc, comp):
+            shared_pull_upstream(sc, comp) and v.get("shared_ctx") in ("nonmono", "dup-stateful"):
+        # only when the merged request stream observed in this run really went backwards in time (or
+        # carried duplicates into a stateful adapter); a shared component with a monotone stream works
         return SHARED
     return None
